@@ -6,6 +6,8 @@ pub open spec fn text_wf(t: &TextRef) -> bool {
             && 1 <= t.words@[k].stem <= t.words@[k].slice.1 - t.words@[k].slice.0)
     && (forall|k: int, m: int| 0 <= k < m < t.words@.len() ==> (#[trigger] t.words@[k]).slice.1 <= (#[trigger] t.words@[m]).slice.0)
 }
+// words are short enough for the gate facts even when two of them are joined
+pub open spec fn text_small(t: &TextRef) -> bool { forall|k: int| 0 <= k < t.words@.len() ==> (#[trigger] t.words@[k]).slice.1 - t.words@[k].slice.0 < 0x8_0000 }
 // every returned match is for a word of the text: same slice, a non-empty prefix of it
 pub open spec fn match_for_text(m: WordMatch, t: &TextRef) -> bool {
     m.offset < t.words@.len() && m.slice == t.words@[m.offset as int].slice && m.subslice.0 == 0 && 1 <= m.subslice.1 <= m.slice.1 - m.slice.0
